@@ -26,7 +26,8 @@ THEOREMS = ["IwModel.C08.main_stable", "IwModel.C08.live_unaffected", "IwModel.C
             "IwModel.C08.growth_in_main_copy_crashes", "IwModel.C08.second_backup_refused",
             "IwModel.C08.stage5_only_finish", "IwModel.C08.stage5_run_frozen", "IwModel.C08.crashed_step_frozen",
             "IwModel.C08.crashed_run_frozen", "IwModel.C08.finish_returns_to_idle", "IwModel.C08.image_instant_partial",
-            "IwModel.C08.writesDone_append", "IwModel.C08.image_writes_prefix_of_final"]
+            "IwModel.C08.writesDone_append", "IwModel.C08.image_writes_prefix_of_final",
+            "IwModel.C08.stage3_step_stage", "IwModel.C08.stage3_run_main_stable"]
 
 
 # ------------------------------------------------------------------ (a) scheduled runs: implementation vs model
